@@ -278,6 +278,55 @@ def _reference_verdict(m: Member) -> bool:
     return bip340.verify(m.msg, m.x.to_bytes(32, "big"), m.r.to_bytes(32, "big") + m.s.to_bytes(32, "big"))
 
 
+def _equation_verdict(w: W, m: Member) -> bool | None:
+    """BIP340's Verify carried to another curve (cofactor 1, p = 3 mod 4) over the naive reference group: x, r field
+    elements, s a scalar, P = lift_x(x), R = s*G - e*P finite with even y and x(R) = r. The challenge is the library's
+    own tagged hash (its refusal of a zero challenge, one in n, is documented: None, nothing is asserted)."""
+    ec, ref = w.ec, w.ref
+    if not (0 <= m.x < ec.p and 0 <= m.r < ec.p and 0 <= m.s < ec.n):
+        return False
+    rhs = (m.x * m.x * m.x + ref.a * m.x + ref.b) % ec.p
+    y = pow(rhs, (ec.p + 1) // 4, ec.p)
+    if y * y % ec.p != rhs:
+        return False
+    pub = (m.x, y if y % 2 == 0 else ec.p - y)
+    try:
+        e = ssa.challenge_(m.msg, m.x, m.r, ec, hashlib.sha256)
+    except BTClibException:
+        return None
+    R = ref.add(ref.mul(m.s, ref.G), ref.neg(ref.mul(e, pub)))
+    return R is not None and R[1] % 2 == 0 and R[0] == m.r
+
+
+def _zero_r_member(w: W, signers: list[dict[str, Any]]) -> Member | None:
+    """A signature whose nonce point has x = 0 (a signer free to choose its nonce can make one wherever the curve has
+    such a point): valid as it stands, r = 0 being a field element, and one modulus away from an r that is none."""
+    ec, ref, ch = w.ec, w.ref, w.ch
+    b = ref.b % ec.p
+    y = pow(b, (ec.p + 1) // 4, ec.p)
+    if not b or y * y % ec.p != b:
+        return None
+    target = (0, y if y % 2 == 0 else ec.p - y)
+    k, acc = 1, ref.G
+    while acc != target and k < ec.n:
+        acc = ref.add(acc, ref.G)
+        k += 1
+    if acc != target:
+        return None
+    sg = ch.pick(signers, "zero-r.signer")
+    d = sg["q"] if sg["Q"][1] % 2 == 0 else ec.n - sg["q"]
+    msg = _message(w)
+    # ... or, from a signer that is not honest, the same nonce with r written as p: the challenge is hashed over
+    # those octets, the equation holds modulo p, and r is no field element -- BIP340 says fail
+    r = ec.p if ch.draw(2, "zero-r.as-p") and ec.p < 1 << (8 * ec.p_size) else 0
+    try:
+        e = ssa.challenge_(msg, sg["Q"][0], r, ec, hashlib.sha256)
+    except BTClibException:
+        return None
+    w.ctx.probe("zero-r-member" if r == 0 else "p-for-zero-r-member")
+    return Member(msg, None, sg["Q"][0], r, (k + e * d) % ec.n, sg["Q"], note="honest" if r == 0 else "r:modulus-for-zero")
+
+
 def _batch(w: W, arrivals: list[Member], verdicts: list[bool], where: str) -> None:
     ctx, ch = w.ctx, w.ch
     keys = [_key(w, m, ch.pick(KEY_SPELLINGS, "batch.key")) for m in arrivals]
@@ -314,10 +363,14 @@ def _corrupt(w: W, m: Member, signers: list[dict[str, Any]]) -> Member:
     """An error in exactly one of r, s, x of one member: an independent value, or the odd-y twin of its nonce."""
     ch, ec = w.ch, w.ec
     field = ch.pick(["s", "r", "x"], "corrupt.field")
+    if m.r == 0 and ch.draw(2, "corrupt.zero-r"):
+        field = "r"
     mod, size = (ec.n, ec.n_size) if field == "s" else (ec.p, ec.p_size)
     old = getattr(m, field)
     kinds = ["other", "above-modulus", "bit-flip", "plus-modulus"] + {"s": ["odd-y-twin"], "r": ["no-x-coordinate"], "x": ["no-x-coordinate", "other-signer", "huge"]}[field]
     kind = ch.pick(kinds, "corrupt.kind")
+    if old == 0 and field != "s":
+        kind = ch.pick([kind, "plus-modulus"], "corrupt.zero")  # the modulus itself, where zero was: the boundary of the range
     if kind == "other":
         new = (old + 1 + ch.draw(mod - 1, "corrupt.value")) % mod
     elif kind == "above-modulus":
@@ -385,6 +438,10 @@ def run(ctx: Ctx) -> None:
         m = _produce(w, signers)
         if m is not None:
             members.append(m)
+    if w.kind == "toy" and ec.cofactor == 1 and ch.chance(3, 4, "zero-r?"):
+        m0 = _zero_r_member(w, signers)
+        if m0 is not None:
+            members.append(m0)
     if signers and ch.chance(1, 3, "other-hash?"):
         _other_hash(w, signers)
     if not members:
@@ -431,6 +488,9 @@ def run(ctx: Ctx) -> None:
             victim = -1
     elif faults and ec.cofactor == 1 and ch.chance(2, 3, "relay.corrupt?"):
         victim = ch.draw(len(arrivals), "relay.victim")
+        zeros = [i for i, a in enumerate(arrivals) if a.r == 0]
+        if zeros and ch.draw(2, "relay.victim.zero-r"):
+            victim = zeros[0]
         arrivals[victim] = _corrupt(w, arrivals[victim], signers)
     # -- verifier ------------------------------------------------------------------
     checkpoints = {len(arrivals)} | {1 + ch.draw(len(arrivals), "checkpoint") for _ in range(ch.draw(3, "checkpoints"))}
@@ -453,6 +513,10 @@ def run(ctx: Ctx) -> None:
             w.ref_verifies -= i != victim  # the corrupted member always gets the reference verdict
             want = _reference_verdict(m)
             ctx.check(P, "verify-matches-bip340", ok == want, lambda: f"{m.note} member: verify_ says {ok}, BIP340 says {want} (bindings={st.backend()})", site=m.note.split(":")[0])
+        if w.kind == "toy" and ec.cofactor == 1 and (i == victim or m.note != "honest" or ch.chance(1, 4, "eq-verify?")):
+            want2 = _equation_verdict(w, m)
+            if want2 is not None:
+                ctx.check(P, "verify-matches-equation", ok == want2, lambda: f"{m.note} member on {w.label}: verify_ says {ok}, the verification equation over the reference group says {want2} (x={m.x} r={m.r} s={m.s})", site=m.note.split(":")[0])
         verdicts.append(ok)
         seen.append((m, ok))
         if i + 1 in checkpoints:
